@@ -214,6 +214,8 @@ def _blocks(t, head_atom):
     """Number of column blocks a term is known to add to head_atom (concat chains), or None."""
     if t == head_atom:
         return 0
+    if t[0] == 'call' and t[1] in ('numpy.hstack', 'numpy.column_stack') and t[2] and t[2][0][0] in ('tuple', 'list'):
+        t = ('call', 'numpy.concatenate', t[2], (('axis', C(1)),))
     if t[0] == 'call' and t[1] == 'numpy.concatenate' and t[2] and t[2][0][0] in ('tuple', 'list'):
         ax = dict(t[3]).get('axis', t[2][1] if len(t[2]) > 1 else None)
         if ax is not None and is_c(ax) and ax[1] == 1:
@@ -400,7 +402,8 @@ def _initial_blocks(t):
     """Column blocks of the accumulator after the first iteration (term level)."""
     if t is None:
         return None
-    if t[0] == 'call' and t[1] == 'numpy.concatenate' and t[2] and t[2][0][0] in ('tuple', 'list'):
+    if t[0] == 'call' and t[1] in ('numpy.concatenate', 'numpy.hstack', 'numpy.column_stack') and t[2] \
+            and t[2][0][0] in ('tuple', 'list'):
         parts = t[2][0][1]
         tot = 0
         for p in parts:
@@ -537,47 +540,61 @@ def rule_second_layer(ctx, rid):
     for q in ('emd.sift.sift_second_layer', 'emd.sift.mask_sift_second_layer'):
         fi = P.func(q)
         sig = fi.params[0]
-        loops = [n for n in walk_local(fi.node) if isinstance(n, ast.For)]
-        ok = False
-        for loop in loops:
-            idx = [m for m in ast.walk(loop) if isinstance(m, ast.Subscript) and isinstance(m.value, ast.Name)
-                   and m.value.id == sig and isinstance(m.slice, ast.Tuple) and len(m.slice.elts) == 2
-                   and isinstance(m.slice.elts[1], ast.Name) and isinstance(loop.target, ast.Name)
-                   and m.slice.elts[1].id == loop.target.id]
-            if not idx:
-                continue
-            it = loop.iter
-            rng = unparse(it.args[-1]) if isinstance(it, ast.Call) and it.args else unparse(it)
-            if rng in ('%s.shape[1]' % sig,):
-                ctx.passed(rid, fi, 'loop over the first-level columns', 'range(%s)' % rng, node=loop)
-            else:
-                ctx.violation(rid, fi, 'loop over the first-level columns',
-                              'first-level columns %s[:, i] are indexed by a loop over %s' % (sig, rng),
-                              node=loop, expected='range(%s.shape[1])' % sig, found='range(%s)' % rng)
-            ok = True
-        if not ok:
-            ctx.undecided(rid, fi, 'loop over the first-level columns', 'no loop indexing the first-level columns')
-        # ** of a possibly-None dict
-        if q.endswith('sift_second_layer') and 'mask' not in q:
-            ev = Evaluator(P)
-            bad = None
-            n = 0
+        c = 'loop over the first-level columns'
+        bad_none = None
+        n_star = 0
 
-            def obs(node, term, st):
-                nonlocal bad, n
-                for k, v in (term[3] if term[0] == 'call' else ()):
+        def obs(node, term, st):
+            nonlocal bad_none, n_star
+            if term[0] == 'call':
+                for k, v in term[3]:
                     if k == '**':
-                        n += 1
+                        n_star += 1
                         if is_c(v) and v[1] is None:
-                            bad = node
-            ev.observer = obs
-            ev.run(fi)
-            if bad is not None:
+                            bad_none = node
+        ev = Evaluator(P, observer=obs)
+        exits = ev.run(fi)
+        ctx.paths += len(exits)
+        verdict = None
+        alg = mk_algebra()
+        for e in exits:
+            if e.kind != 'return':
+                continue
+            sig_t = e.state.env.get(sig)
+            for ls in e.state.loops:
+                if ls.kind != 'for':
+                    continue
+                # does the body index column <loop var> of the first-level array?
+                uses = False
+                for kind, b in ls.body_states:
+                    for eff in b.effects:
+                        for t in subterms(eff[3]) if eff[0] == 'setitem' else ():
+                            if t[0] == 'sub' and t[1] == sig_t and t[2][0] == 'tuple' and len(t[2][1]) == 2 \
+                                    and t[2][1][1] == ls.var:
+                                uses = True
+                if not uses:
+                    continue
+                it = ls.iter_term
+                want = ('sub', ('attr', sig_t, 'shape'), C(1))
+                if it[0] == 'call' and it[1] == 'builtins.range' and len(it[2]) == 1 \
+                        and alg.poly(it[2][0]) == alg.poly(want):
+                    verdict = verdict or ('pass', show(it)[:60])
+                else:
+                    verdict = ('fail', show(it)[:80])
+        if verdict is None:
+            ctx.undecided(rid, fi, c, 'no loop indexing the first-level columns')
+        elif verdict[0] == 'pass':
+            ctx.passed(rid, fi, c, verdict[1])
+        else:
+            ctx.violation(rid, fi, c, 'first-level columns %s[:, i] are indexed by a loop over %s' % (sig, verdict[1]),
+                          expected='range(%s.shape[1])' % sig, found=verdict[1])
+        if q.endswith('.sift_second_layer'):
+            if bad_none is not None:
                 ctx.violation(rid, fi, 'option dict unpacked with ** is never None',
                               '`**sift_args` is reached with sift_args=None (TypeError for the default call)',
-                              node=bad)
-            elif n:
-                ctx.passed(rid, fi, 'option dict unpacked with ** is never None', '%d call states' % n)
+                              node=bad_none)
+            elif n_star:
+                ctx.passed(rid, fi, 'option dict unpacked with ** is never None', '%d call states' % n_star)
             else:
                 ctx.note(rid, fi, 'option dict unpacked with ** is never None', 'no ** unpacking found')
 
